@@ -11,6 +11,10 @@ from . import packet
 default_logger = logging.getLogger('socketio.client')
 reconnecting_clients = []
 
+# key of the ack id counter inside each namespace's callback table; it is not
+# a value that an acknowledgement id received from the network can be equal to
+_ack_counter = object()
+
 
 def signal_handler(sig, frame):  # pragma: no cover
     """SIGINT handler.
@@ -277,8 +281,8 @@ class BaseClient:
         """Generate a unique identifier for an ACK packet."""
         namespace = namespace or '/'
         if namespace not in self.callbacks:
-            self.callbacks[namespace] = {0: itertools.count(1)}
-        id = next(self.callbacks[namespace][0])
+            self.callbacks[namespace] = {_ack_counter: itertools.count(1)}
+        id = next(self.callbacks[namespace][_ack_counter])
         self.callbacks[namespace][id] = callback
         return id
 
